@@ -28,7 +28,7 @@ func init() {
 		Run: runC20, Workers: 8, GOMAXPROCS: 4,
 		QuickTimeout: 4 * time.Minute, ThoroughTimeout: 20 * time.Minute,
 		QuickFloor: 5000, ThoroughFloor: 100000,
-		RequiredCounters: []string{"seek_ops", "sizer_ops", "closer_ops", "proxy_bytes", "unique_ops"},
+		RequiredCounters: []string{"seek_ops", "sizer_ops", "closer_ops", "proxy_bytes", "proxy_data_with_error_cases", "unique_ops"},
 		Rule: "each case is one seed-generated operation sequence on a fresh object, stepped next to an independent reference model (bounded position model; running sum; close-once state machine; byte streams; map with class-based cmp); " +
 			"non-trivial = the sequence contains an out-of-range/invalid/overflowing Seek, a short or failing wrapped read/write, a duplicate key inside one call, or a call after Close; distinct = distinct hashes over the operation sequence with its arguments and results",
 		Assumptions: append([]string{"wrapped streams are in-process stubs with scripted short reads and errors; ioproxy runs over net.Pipe pairs"}, commonAssumptions...),
@@ -50,6 +50,7 @@ func runC20(w *mon.Worker) {
 	}
 	for i := 0; i < w.Share(w.Scale(640, 180000)); i++ {
 		w.Case("ioproxy", nil, proxyCase)
+		w.Case("ioproxy-data-with-error", nil, proxyDataErrCase)
 	}
 	for i := 0; i < w.Share(w.Scale(16000, 9000000)); i++ {
 		w.Case("unique", nil, uniqueCase)
@@ -904,5 +905,98 @@ func uniqueCase(c *mon.Case) {
 				return
 			}
 		}
+	}
+}
+
+// scriptSrc hands out scripted chunks; the last one comes together with io.EOF (or another error), as io.Reader allows.
+type scriptSrc struct {
+	mu     sync.Mutex
+	chunks [][]byte
+	endErr error
+	closed atomic.Int64
+}
+
+func (s *scriptSrc) Read(p []byte) (int, error) {
+	s.mu.Lock()
+	defer s.mu.Unlock()
+	if len(s.chunks) == 0 {
+		return 0, s.endErr
+	}
+	n := copy(p, s.chunks[0])
+	if n < len(s.chunks[0]) {
+		s.chunks[0] = s.chunks[0][n:]
+		return n, nil
+	}
+	s.chunks = s.chunks[1:]
+	if len(s.chunks) == 0 {
+		return n, s.endErr
+	}
+	return n, nil
+}
+func (s *scriptSrc) Write(p []byte) (int, error) { return len(p), nil }
+func (s *scriptSrc) Close() error                { s.closed.Add(1); return nil }
+
+// sinkDst collects what is written to it; its Read blocks until it is closed.
+type sinkDst struct {
+	mu     sync.Mutex
+	got    []byte
+	done   chan struct{}
+	once   sync.Once
+	closed atomic.Int64
+}
+
+func (d *sinkDst) Read(p []byte) (int, error) { <-d.done; return 0, io.EOF }
+func (d *sinkDst) Write(p []byte) (int, error) {
+	d.mu.Lock()
+	d.got = append(d.got, p...)
+	d.mu.Unlock()
+	return len(p), nil
+}
+func (d *sinkDst) Close() error { d.closed.Add(1); d.once.Do(func() { close(d.done) }); return nil }
+
+// proxyDataErrCase: a stream whose final Read returns data together with its error; every byte still arrives.
+func proxyDataErrCase(c *mon.Case) {
+	r := c.Rng
+	n := 1 + r.IntN(6)
+	var all []byte
+	src := &scriptSrc{endErr: io.EOF}
+	if r.IntN(3) == 0 {
+		src.endErr = errors.New("stream reset by peer")
+	}
+	for i := 0; i < n; i++ {
+		ch := make([]byte, 1+r.IntN(700))
+		for j := range ch {
+			ch[j] = byte(r.UintN(256))
+		}
+		src.chunks = append(src.chunks, ch)
+		all = append(all, ch...)
+	}
+	dst := &sinkDst{done: make(chan struct{})}
+	var cbs atomic.Int64
+	done := make(chan struct{})
+	ioproxy.ProxyStreams(src, dst, func() {
+		if cbs.Add(1) == 2 {
+			close(done)
+		}
+	})
+	select {
+	case <-done:
+	case <-time.After(10 * time.Second):
+		c.Inconclusive("proxy did not finish")
+		dst.Close()
+		return
+	}
+	c.Count("proxy_bytes", int64(len(all)))
+	c.Count("proxy_data_with_error_cases", 1)
+	c.NonTrivial()
+	c.Mix(uint64(len(all))<<8 | uint64(n))
+	dst.mu.Lock()
+	got := append([]byte(nil), dst.got...)
+	dst.mu.Unlock()
+	if !bytes.Equal(got, all) {
+		c.Violate("model", "proxy-data", "the source's last Read returned its final bytes together with %v; the other side received %d of %d bytes", src.endErr, len(got), len(all))
+	}
+	if src.closed.Load() == 0 || dst.closed.Load() == 0 {
+		c.Violate("model", "proxy-close", "after both callbacks the streams were closed %d and %d times", src.closed.Load(), dst.closed.Load())
 	}
 }
